@@ -65,11 +65,21 @@ theorem indep_stack (bases : List Scope) (hB : ∀ B ∈ bases, B.Indep) (n sp a
       rw [ef k, el k]
       exact (hB B hBm _ _ _ _).2.2
 
+theorem indep_api (op : ApiOp) (S : Scope) (hS : S.Indep) : (denoteApi op S).Indep := by
+  intro xa xa' xt xl
+  obtain ⟨e1, e2, e3⟩ := hS xa xa' xt xl
+  cases op with
+  | tee _ => exact ⟨e1, e2, e3⟩
+  | extend oa ot ol v => refine ⟨?_, ?_, ?_⟩ <;> simp only [denoteApi, e1, e2, e3]
+  | labelMix t => refine ⟨?_, ?_, ?_⟩ <;> simp only [denoteApi, e1, e2, e3]
+  | monitor a => refine ⟨?_, ?_, ?_⟩ <;> simp only [denoteApi, e1, e2, e3]
+
 mutual
   theorem indep_denoteC : ∀ (e : Expr) (S : Scope), S.Indep → (denoteC e S).Indep
     | .wrap lab app trn, S, hS => by rw [denoteC]; exact indep_wrap lab app trn S hS
     | .mapreduce ms r, S, hS => by rw [denoteC]; exact indep_mapreduce ms r S hS
     | .debug a t, S, hS => by rw [denoteC]; exact indep_debug a t S hS
+    | .api op, S, hS => by rw [denoteC]; exact indep_api op S hS
     | .stack bases n s a k r, S, hS => by
       rw [denoteC]; exact indep_stack _ (indep_denoteAll bases) n s a k r S hS
     | .seq l r, S, hS => by
